@@ -328,4 +328,17 @@ def specSliceStep1 {β : Type} (l : List β) (st en : Int) : List β :=
   let e := clampI (if en < 0 then en + d else en) d
   (l.drop s).take (e - s)
 
+/-! ## `_cast_constant_of_shape.rules`: two rules on one root, first match wins -/
+/-- `cast_constant_of_shape_rule`: the pattern names the `value` attribute, so it matches only a node that has one; the
+fused node is filled with that value (cast). -/
+def ccosWithValueRule (value : Option Rat) : Option Rat := value
+/-- `cast_constant_of_shape_without_value_rule`: the pattern lists no attribute and node patterns allow unlisted attributes,
+so it matches **every** `Cast(ConstantOfShape(·))`; the fused node is filled with 0. -/
+def ccosWithoutValueRule (_value : Option Rat) : Option Rat := some 0
+/-- first-match-wins over a list of these two rules -/
+def ccosRuleSet (rules : List (Option Rat → Option Rat)) (value : Option Rat) : Option Rat :=
+  rules.findSome? (fun r => r value)
+/-- fill value of `ConstantOfShape(shape, value?)` (ONNX: default 0) -/
+def ccosFill (value : Option Rat) : Rat := value.getD 0
+
 end OV.C05.More
